@@ -87,6 +87,12 @@ class Sched:
         if not self._switch(i):
             raise Deadlock("blocked with no other runnable thread")
 
+    def wait_done(self, j):
+        """The running thread waits until thread j has finished (a join): the others run meanwhile; if nobody can make progress
+        this is a deadlock, decided in logical steps."""
+        while not self.done[j]:
+            self.block_switch()
+
     def _runner(self, i, fn):
         self.idx.i = i
         self.sems[i].acquire()
@@ -107,15 +113,23 @@ class Sched:
             else:
                 self.finished.set()
 
-    def run(self, fns):
+    def run(self, fns, raw_threads=False):
+        """raw_threads: the workers are started with _thread.start_new_thread() - threads the `threading` module knows nothing
+        about (threading.active_count() stays 1), like the ones an embedding C program or a ctypes callback creates."""
         self.n = len(fns)
         self.sems = [threading.Semaphore(0) for _ in fns]
         self.done = [False] * self.n
         self.results = [None] * self.n
         self.finished = threading.Event()
-        ths = [threading.Thread(target=self._runner, args=(i, f), daemon=True) for i, f in enumerate(fns)]
-        for t in ths:
-            t.start()
+        if raw_threads:
+            import _thread
+            ths = []
+            for i, f in enumerate(fns):
+                _thread.start_new_thread(self._runner, (i, f))
+        else:
+            ths = [threading.Thread(target=self._runner, args=(i, f), daemon=True) for i, f in enumerate(fns)]
+            for t in ths:
+                t.start()
         self.sems[self.first].release()
         ok = self.finished.wait(self.watchdog)
         if not ok:
@@ -158,6 +172,25 @@ class CoopLock:
 
     def __exit__(self, *a):
         self.release()
+
+
+def coop_module_locks(modules, sched_ref):
+    """Every Lock/RLock bound to a module-level name of `modules` becomes cooperative (also locks a changed tree added): a thread
+    that would block on one hands the processor to the others instead of freezing the scheduler. -> undo()"""
+    import threading
+    kinds = (type(threading.Lock()), type(threading.RLock()))
+    saved = []
+    for m in modules:
+        for name, val in list(vars(m).items()):
+            if isinstance(val, kinds):
+                saved.append((m, name, val))
+                setattr(m, name, CoopLock(val, sched_ref))
+
+    def undo():
+        for m, name, val in saved:
+            setattr(m, name, val)
+    undo.count = len(saved)
+    return undo
 
 
 def schedules_upto(total, bound):
